@@ -10,7 +10,7 @@ Fixpoint show_N_rev (fuel : nat) (n : N) : bytes :=
   | O => []
   | S f => if (n <? 10)%N then [digit_byte n] else digit_byte (n mod 10) :: show_N_rev f (n / 10)
   end.
-Definition show_N (n : N) : bytes := rev (show_N_rev 100 n).
+Definition show_N (n : N) : bytes := rev (show_N_rev (S (N.size_nat n)) n).
 Definition show_Z (z : Z) : bytes :=
   match z with
   | Z0 => str "0"
